@@ -4,7 +4,7 @@ cd "$(dirname "$0")/.."
 for d in seeded/*/; do
   id=$(basename $d); pid=${id%-*}
   echo "==== $id"
-  /venv/bin/python tools/try_seed.py $(pwd)/$d/patch.diff --props $pid --tier quick --demo $(pwd)/$d/demo.py --json $(pwd)/$d/run.json 2>&1 | grep -v "^demo without" | cut -c1-260
+  /venv/bin/python tools/try_seed.py $(pwd)/$d/patch.diff --repo ${SEED_REPO:-/repo} --props $pid --tier quick --demo $(pwd)/$d/demo.py --json $(pwd)/$d/run.json 2>&1 | grep -v "^demo without" | cut -c1-260
   /venv/bin/python - "$d" "$pid" <<'PY'
 import json, os, sys
 d, pid = sys.argv[1], sys.argv[2]
